@@ -3,9 +3,127 @@ import ShelxModel.C01
 open Lean Shelx.J
 
 namespace Shelx.Drv.C01
+open Shelx.C01 Shelx.C01.Ext
+
+/-- exact value of a double (decoded from its bit pattern) -/
+def floatToRat (f : Float) : Rat :=
+  let b : Nat := f.toBits.toNat
+  let neg : Bool := b / 2 ^ 63 == 1
+  let e : Nat := (b / 2 ^ 52) % 2048
+  let m : Nat := b % 2 ^ 52
+  let n : Nat := 2 ^ 52 + m
+  let mag : Rat :=
+    if e = 0 then (m : Rat) / ((2 ^ 1074 : Nat) : Rat)
+    else if e ≥ 1075 then ((n * 2 ^ (e - 1075) : Nat) : Rat)
+    else (n : Rat) / ((2 ^ (1075 - e) : Nat) : Rat)
+  if neg then -mag else mag
+
+def s2t (s : String) : Tok := s.toList
+def t2s (t : List Char) : String := String.mk t
+
+def optStr : Option (List Char) → Json
+  | none => Json.null
+  | some t => Json.str (t2s t)
+
+def lines (ls : List (List Char)) : Json := Json.arr (ls.map fun l => Json.str (t2s l)).toArray
+
+def pairsPr (ps : List (Rat × Tok)) (x : Rat) : Tok :=
+  match ps.find? (·.1 = x) with
+  | some p => p.2
+  | none => "?".toList
+
+def defaultReprs : List (Rat × Tok) :=
+  [(1 / 100, s2t "0.01"), (1 / 10, s2t "0.1"), (0, s2t "0.0"), (33333 / 100000, s2t "0.33333")]
 
 def handle (j : Json) : Except String Json := do
   let op ← strField j "op"
-  err s!"C01: unknown op {op}"
+  match op with
+  | "atom" =>
+    let kind ← strField j "kind"
+    let name := s2t (← strField j "name")
+    let sfac ← natField j "sfac"
+    let vals := (← field j "vals" >>= floats).map floatToRat
+    let xyz := vals.take 3
+    let sof := (vals.drop 3).headD 0
+    let us := vals.drop 4
+    let a : AtomV :=
+      if kind = "qpeak" then ⟨name, sfac, xyz, sof, us ++ [0, 0, 0, 0], true, (us.drop 1).headD 0⟩
+      else if kind = "iso" then ⟨name, sfac, xyz, sof, us ++ [0, 0, 0, 0, 0], false, 0⟩
+      else ⟨name, sfac, xyz, sof, us, false, 0⟩
+    let line := renderAtom a
+    let want := xyz.map (fun v => (v, tolCoord)) ++ [(sof, tolU)] ++ us.map (fun v => (v, tolU))
+    let specOk := match line with
+      | none => false
+      | some l => specAtomLine (splitWs l) name sfac want
+    -- hypotheses of atom_render_close: the fields do not fuse, the kind the printer chooses is the kind of the input,
+    -- and (open finding) a Q-peak's U is the constant the printer writes
+    let fmt := if kind = "aniso" then anisFmt else if kind = "qpeak" then qpeakFmt else isoFmt
+    let head := [Val.str a.name, Val.int a.sfac] ++ a.xyz.map Val.num ++ [Val.num a.sof]
+    let vs := if kind = "qpeak" then head ++ [Val.num ((qpeakUConst.getD (us.headD 0))), Val.num a.height] else head ++ a.us.map Val.num
+    let sepOk := match chunksOf fmt vs with | some cs => sep false cs | none => false
+    let kindOk := if kind = "aniso" then isAniso a.us else if kind = "iso" then !isAniso a.us else
+      (match qpeakUConst with | some c => decide (absR (c - us.headD 0) ≤ 1 / 100000) | none => true)
+        && decide (absR (roundHalfEven (a.height * 100) / 100 - a.height) ≤ 1 / 100000)
+        && xyz.all fun x => decide (absR (roundHalfEven (x * 10000) / 10000 - x) ≤ 1 / 1000000)
+    return Json.mkObj [("model", optStr line), ("spec_ok", Json.bool specOk), ("hyp", Json.bool (sepOk && kindOk)),
+                       ("sep", Json.bool sepOk)]
+  | "sfac" =>
+    let ents ← (← arrField j "entries").mapM fun e => do
+      let el ← strField e "el"
+      match fieldOpt e "c" with
+      | some c => do
+        let cs ← strs c
+        return SfEntry.expl (s2t el :: cs.map s2t)
+      | none => return SfEntry.plain (s2t el)
+    match renderSfac ents with
+    | none => return Json.mkObj [("model", Json.null), ("spec_ok", Json.bool false), ("hyp", Json.bool false)]
+    | some ls =>
+      let texts := ls.map sfacLineText
+      let back := readSfac (texts.map fun t => (splitWs t).tail)
+      let old := match renderSfacOld ents with
+        | some lo => readSfac ((lo.map sfacLineText).map fun t => (splitWs t).tail) == ents
+        | none => false
+      return Json.mkObj [("model", lines texts), ("spec_ok", Json.bool (back == ents)), ("hyp", Json.bool true),
+                         ("old_printer_ok", Json.bool old)]
+  | "fvar" =>
+    let rs := (← field j "reprs" >>= strs).map s2t
+    let ls := renderFvar rs
+    let texts := ls.map fun l => fvarLineText l.tail
+    let back := readFvar (texts.map splitWs)
+    return Json.mkObj [("model", lines texts), ("spec_ok", Json.bool (back == rs)), ("hyp", Json.bool (decide (1 ≤ fvarChunk)))]
+  | "unit" =>
+    let vals ← field j "vals" >>= rats
+    let rs := (← field j "reprs" >>= strs).map s2t
+    let pr := pairsPr (vals.zip rs)
+    let toks := renderUnit pr vals
+    let text := "UNIT ".toList ++ joinBl 1 toks.tail
+    let back := (splitWs text).tail.map parseDec
+    let ok := back.length = vals.length && (back.zip vals).all fun (b, v) => (b == some v) || v.den ≠ 1
+    return Json.mkObj [("model", Json.str (t2s text)), ("spec_ok", Json.bool ok), ("hyp", Json.bool true)]
+  | "card" =>
+    let kw ← strField j "kw"
+    let toks := (← field j "toks" >>= strs).map s2t
+    match kw with
+    | "default" | "raw" =>
+      let text := joinBl 0 toks
+      return Json.mkObj [("model", Json.str (t2s text)), ("spec_ok", Json.bool (splitWs text == toks)), ("hyp", Json.bool true)]
+    | "SYMM" =>
+      let comps := parseSymm toks.tail
+      let text := renderSymm comps
+      return Json.mkObj [("model", Json.str (t2s text)), ("spec_ok", Json.bool (normSymm text == parseSymm toks.tail)),
+                         ("hyp", Json.bool (toks.tail.all fun t => !t.contains ' '))]
+    | _ =>
+      let vals ← field j "vals" >>= rats
+      let rs := (← field j "reprs" >>= strs).map s2t
+      let words := (← field j "words" >>= strs).map s2t
+      let pr := pairsPr (vals.zip rs ++ defaultReprs)
+      let out : List Tok := match kw with
+        | "SIZE" => renderSize pr vals
+        | "ACTA" => renderActa pr vals words
+        | "STIR" => renderStir pr vals
+        | _ => renderWght pr vals
+      let text := joinBl 0 out
+      return Json.mkObj [("model", Json.str (t2s text)), ("hyp", Json.bool true)]
+  | _ => err s!"C01: unknown op {op}"
 
 end Shelx.Drv.C01
